@@ -95,6 +95,29 @@ def run(ctx, rep):
                     rep.ob('R01.e', sf.APPEND, '%s written after the empty-batch test' % place_fields(lhs)[-1][1], ok, '%s:%s' % (b.file, s.get('ln')),
                            None if ok else '`%s` is written on a path that can still return early for an all-duplicates batch: a dropped batch changes the offset state' % place_fields(lhs)[-1][1])
 
+    # ------------------------------------------------------------ R01.g nothing fallible after the offsets were consumed
+    rep.rule('R01.g', 'a rejected send consumes no offset: the roll-over to a new segment (the only file creation of a send, it can fail) is not reachable once an offset was assigned or current_offset written', floor=2, analysis='A2 ordering')
+    adds = [c for c in b.calls if c.name.endswith('Partition::add_persisted_segment') and is_user_call(c)]
+    if not adds:
+        rep.anchor_lost('R01.g', 'add_persisted_segment in append_messages')
+    writes = set()
+    for blk in sorted(b.reach):
+        for s in b.stmts(blk):
+            lhs = s.get('lhs')
+            if lhs and len(lhs) > 1 and place_fields(lhs) and place_fields(lhs)[-1][0] == P and place_fields(lhs)[-1][1] in ('current_offset', 'should_increment_offset'):
+                writes.add(blk)
+    assigns = {c.bb for c in b.calls if c.name.endswith('RetainedMessage::new') and is_user_call(c)}
+    for c in adds:
+        late_w = [w for w in writes if c.bb in b.reachable(w)]
+        late_a = [w for w in assigns if c.bb in b.reachable(w)]
+        rep.ob('R01.g', sf.APPEND, 'roll-over before current_offset is written', not late_w, c.where(),
+               None if not late_w else 'add_persisted_segment (which can fail) is reachable after current_offset was advanced (%s): the send is rejected but its offsets are consumed' % b.where(late_w[0]))
+        rep.ob('R01.g', sf.APPEND, 'roll-over before offsets are assigned', not late_a, c.where(),
+               None if not late_a else 'add_persisted_segment (which can fail) is reachable after message offsets were assigned (%s)' % b.where(late_a[0]))
+
+    # ------------------------------------------------------------ R01.h the batch on disk carries its own offset range
+    batch_forms(ctx, rep, 'R01.h')
+
     # ------------------------------------------------------------ R01.b exclusive append
     rep.rule('R01.b', 'Partition::append_messages takes &mut self and its production call sites go through the partition write guard', floor=2, analysis='A4+A12')
     rec = ctx.fn_record(sf.APPEND)
@@ -104,6 +127,35 @@ def run(ctx, rep):
         recv = cb.expr_operand(c.args[0])
         ok = any(x[0] == 'call' and x[1].split('::')[-1] == 'write' for x in walk(recv))
         rep.ob('R01.b', ctx.user_fn_of(d), 'write-guard', ok, c.where(), 'receiver obtained through .write()' if ok else 'receiver `%s` is not a write guard' % render(recv)[:80])
+
+
+def batch_forms(ctx, rep, rid):
+    """shared by C01/C02/C03: what a flushed batch records about its offsets and time, and what the index rebuilder derives from it"""
+    import forms
+    rep.rule(rid, 'the batch header written to disk carries the offset range of its messages (base = first offset, last_offset_delta = last - first, max timestamp = timestamp of the last message) and the index rebuilder derives offset, position and timestamp from exactly those', floor=3, analysis='A9 call-argument forms')
+    BA = 'server::streaming::batching::batch_accumulator::BatchAccumulator'
+    IR = 'server::compat::index_rebuilding::index_rebuilder::IndexRebuilder'
+    forms.check_call_args(ctx, rep, rid, {
+        BA + '::materialize_batch_and_update_state': {'RetainedMessageBatch::new': [
+            're:^self\\.base_offset, \\(self\\.current_offset - self\\.base_offset\\), phi\\{0 \\| ::index\\(self\\.messages, \\(Vec::len\\(self\\.messages\\) - 1\\)\\)\\.timestamp\\}, Bytes::len\\(.*\\), BytesMut::freeze\\(.*\\)$']},
+    }, skip_self=False, cd=2)
+    forms.check_call_args(ctx, rep, rid, {
+        IR + '::rebuild': {'write_index_entry': [
+            're:^BufWriter::new\\(.*\\), IndexRebuilder::read_batch_header\\(.*\\), phi\\{\\(\\(\\$u32 \\+ 24\\) \\+ IndexRebuilder::read_batch_header\\(.*\\)\\.length\\) \\| 0\\}, self\\.start_offset$']},
+    }, skip_self=False, cd=2)
+    from forms import field_assignments
+    # the accumulator's own range bookkeeping
+    want = {'base_offset': {BA + '::new': None, BA + '::append': ['[T]::first(items).offset'], BA + '::materialize_batch_and_update_state': ['0']},
+            'current_offset': {BA + '::new': None, BA + '::append': ['[T]::last(items).offset'], BA + '::materialize_batch_and_update_state': ['0']},
+            'current_timestamp': {BA + '::new': None, BA + '::append': ['[T]::last(items).timestamp'], BA + '::materialize_batch_and_update_state': ['0']}}
+    for field, per in want.items():
+        for fn, b_, bb_, ln, form in field_assignments(ctx, BA, field):
+            exp = per.get(fn, 'x')
+            if exp == 'x':
+                rep.ob(rid, fn, 'writer of BatchAccumulator.' + field, False, '%s:%s' % (b_.file, ln), 'BatchAccumulator.%s is written by an unconfirmed function' % field)
+            elif exp is not None:
+                ok = forms._match(form, exp) is not None
+                rep.ob(rid, fn, '%s = %s' % (field, form[:80]), ok, '%s:%s' % (b_.file, ln), None if ok else 'BatchAccumulator.%s is assigned `%s` (confirmed forms: %s)' % (field, form, exp))
 
 
 def expr_wraps(e, bb):
